@@ -1,3 +1,4 @@
+import TinysetModel.Proofs.Fns
 import TinysetModel.Proofs.Plain
 import TinysetModel.Proofs.Consts
 import TinysetModel.Proofs.Refine
@@ -205,6 +206,19 @@ theorem run_refines_from_checked_u32 {D : Type} (g : Rng D) (fuel : Nat) (ops : 
       (∀ x, x ∈ elems cfg32 r' ↔ x ∈ (specRun (elems cfg32 r) ops).1) :=
   have wf := wf_of_check cfg32 r hc.1 hc.2
   run_refines cfg32_ok g fuel ops hops wf (elems cfg32 r) (absOK_of_wf cfg32_ok wf).nodup (fun _ => Iff.rfl) h
+
+/-! ### the helper functions the model transliterates are the ones in the current source
+(`Generated/Fns.lean`: translated from `src/setu32.rs` on every run by `tools/gen_fns.py`) -/
+
+/-- `log_2`, `compute_array_bits` (the `62` for arguments below 2 included), `split_u32`, `p_poverty` (which
+narrows the table length to `u32`: equal below 2^32 buckets) of the current `setu32.rs` are the functions the
+model uses, for every `u32` argument -/
+theorem helpers_are_the_source_u32 :
+    (∀ x, x < 2 ^ 32 → Gen.log_2_32 x = TinyC.log2 x) ∧
+    (∀ mx, mx < 2 ^ 32 → Gen.compute_array_bits_32 mx = cfg32.cab mx) ∧
+    (∀ x bits, 0 < bits → Gen.split_32 x bits = (x / bits, x % bits)) ∧
+    (∀ k idx n, n < 2 ^ 32 → Gen.p_poverty_32 k idx n = RH.pov k idx n) :=
+  ⟨log_2_32_eq, compute_array_bits_32_eq, split_32_eq, p_poverty_32_eq⟩
 
 end C02
 
